@@ -430,7 +430,79 @@ def offset_ratio(i):
     return ['0', '1e3', '1e6'][i % 3]
 
 
+def accessor_failures(n, seed, limit=3):
+    """[B] the accessors of beamline_components (position, source_position, sample_position, incident_beam, scattered_beam, L1, L2,
+    Ltotal with and without scattering, two_theta) on real data arrays and datasets: every answer is the Euclidean definition for the
+    coordinates the object has NOW -- asked, the geometry changed on the same object (a coordinate replaced, a coordinate edited in
+    place), asked again; the object itself gains no coordinate and none of its coordinates changes."""
+    import numpy as np
+    import scipp as sc
+    from vf.realrun import real_module
+    bc = real_module('beamline_components')
+    rng = np.random.default_rng(seed)
+    fails = []
+
+    def expected(src, smp, pos):
+        b1, b2 = smp - src, pos - smp
+        l1, l2 = np.linalg.norm(b1), np.linalg.norm(b2, axis=-1)
+        u, v = b1 / l1, b2 / l2[:, None]
+        tt = 2 * np.arctan2(np.linalg.norm(u - v, axis=-1), np.linalg.norm(u + v, axis=-1))
+        return {'incident_beam': b1, 'scattered_beam': b2, 'L1': l1, 'L2': l2, 'Ltotal_scatter': l1 + l2, 'Ltotal_no_scatter': np.linalg.norm(pos - src, axis=-1), 'two_theta': tt,
+                'position': pos, 'source_position': src, 'sample_position': smp}
+
+    def ask(obj):
+        return {'incident_beam': bc.incident_beam(obj), 'scattered_beam': bc.scattered_beam(obj), 'L1': bc.L1(obj), 'L2': bc.L2(obj), 'Ltotal_scatter': bc.Ltotal(obj, scatter=True),
+                'Ltotal_no_scatter': bc.Ltotal(obj, scatter=False), 'two_theta': bc.two_theta(obj), 'position': bc.position(obj), 'source_position': bc.source_position(obj),
+                'sample_position': bc.sample_position(obj)}
+
+    def compare(got, want, stage):
+        for k, w in want.items():
+            g = got[k].values
+            if np.shape(g) != np.shape(w) or not np.allclose(g, w, rtol=1e-12, atol=1e-12):
+                return f'{stage}: {k} is {np.ravel(g)[:3]}, by its Euclidean definition for the present coordinates {np.ravel(w)[:3]}'
+        return None
+    for i in range(n):
+        npix = int(rng.integers(1, 5))
+        src, smp = rng.normal(size=3) * 10 - np.array([0, 0, 30.0]), rng.normal(size=3)
+        pos = rng.normal(size=(npix, 3)) * 3 + np.array([0, 0, 5.0])
+        coords = {'source_position': sc.vector(src, unit='m'), 'sample_position': sc.vector(smp, unit='m'), 'position': sc.vectors(dims=['pixel'], values=pos, unit='m')}
+        da = sc.DataArray(sc.ones(dims=['pixel'], shape=[npix]), coords=coords)
+        obj = da if i % 2 == 0 else sc.Dataset({'a': da})
+        desc = {'id': f'accessors{i}', 'index': i, 'seed': seed, 'kind': 'accessors', 'container': type(obj).__name__, 'pixels': npix}
+        try:
+            names0 = set(obj.coords)
+            prob = compare(ask(obj), expected(src, smp, pos), 'first request')
+            if prob is None and set(obj.coords) != names0:
+                prob = f'asking added coordinates to the object: {sorted(set(obj.coords) - names0)}'
+            if prob is None:
+                # the sample is moved: a coordinate replaced on the same object
+                smp2 = smp + rng.normal(size=3)
+                obj.coords['sample_position'] = sc.vector(smp2, unit='m')
+                prob = compare(ask(obj), expected(src, smp2, pos), 'after the sample position was replaced on the same object')
+            if prob is None:
+                # the detectors are moved: a coordinate edited in place
+                pos2 = pos + rng.normal(size=pos.shape)
+                obj.coords['position'].values = pos2
+                prob = compare(ask(obj), expected(src, smp2, pos2), 'after the detector positions were edited in place')
+            if prob is None:
+                src2 = src * 1.5
+                obj.coords['source_position'] = sc.vector(src2, unit='m')
+                prob = compare(ask(obj), expected(src2, smp2, pos2), 'after the source position was replaced on the same object')
+        except Exception as e:  # noqa: BLE001
+            prob = f'raised {type(e).__name__}: {e}'[:300]
+        if prob:
+            fails.append({**desc, 'problem': prob})
+            if len(fails) >= limit:
+                break
+    return fails
+
+
 def accuracy_bounded(chk):
+    na = 40 if chk.tier == 'quick' else 1500
+    af = accessor_failures(na, 55 + chk.seed)
+    chk.function('beamline_components', 'position / source_position / sample_position / incident_beam / scattered_beam / L1 / L2 / Ltotal / two_theta')
+    chk.bounded_check('accessors-on-data', 'real beamline_components accessors on data arrays and datasets vs the Euclidean definitions, also after the geometry of the same object was changed',
+                      f'{na} objects (1..4 pixels), each asked four times: as made, sample replaced, detectors edited in place, source replaced', na, af)
     nl = 300 if chk.tier == 'quick' else 6000
     lf = length_failures(nl, 77 + chk.seed)
     chk.bounded_check('lengths-anywhere', 'real straight_incident_beam / straight_scattered_beam / L1 / L2 / total_beam_length / total_straight_beam_length_no_scatter vs exact rationals',
@@ -454,6 +526,10 @@ def replay(rec):
         hit = [x for x in fails if 'index' not in f_ or x['index'] == f_['index']]
         return {'reproduced': bool(hit), 'cases': hit[:1]}
     name = rec['obligation']
+    if '/bounded/accessors-on-data/' in name:
+        fails = accessor_failures(int(f_.get('index', 39)) + 1, int(f_.get('seed', 55)), limit=10 ** 6)
+        hit = [x for x in fails if 'index' not in f_ or x['index'] == f_['index']]
+        return {'reproduced': bool(hit), 'cases': hit[:1]}
     if '/bounded/beams-changed-in-place' in name:
         from contracts import C09
         stale = C09.stale_result_failures()
